@@ -6,6 +6,7 @@ package cmd
 import (
 	"encoding/json"
 	"fmt"
+	"github.com/microsoft/yardl/tooling/internal/verifhook"
 	"math"
 	"os"
 	"path"
@@ -90,6 +91,8 @@ func newGenerateCommand() *cobra.Command {
 // dedup fsnotify events
 func dedupLoop(configArgs map[string]string, w *fsnotify.Watcher, completedChannel chan<- error) {
 	regenerate := func() {
+		verifhook.Emit("RegenStart")
+		defer verifhook.Emit("RegenEnd")
 		dirsToWatch := generateInWatchMode(configArgs)
 		if dirsToWatch != nil && len(dirsToWatch) > len(w.WatchList()) {
 			for _, dir := range dirsToWatch {
@@ -125,6 +128,7 @@ func dedupLoop(configArgs map[string]string, w *fsnotify.Watcher, completedChann
 				return
 			}
 
+			verifhook.Emit("FsEvent")
 			timer.Reset(waitFor)
 		}
 	}
@@ -183,6 +187,7 @@ func generateImpl(configArgs map[string]string) (*packaging.PackageInfo, []strin
 		return nil, nil, err
 	}
 
+	verifhook.Emit("GenStart", "dir", inputDir)
 	packageInfo, err := packaging.LoadPackage(inputDir)
 	if err != nil {
 		return packageInfo, nil, err
@@ -196,8 +201,11 @@ func generateImpl(configArgs map[string]string) (*packaging.PackageInfo, []strin
 	if err != nil {
 		return packageInfo, warnings, err
 	}
+	verifhook.Emit("Validated", "ok", true)
+	verifhook.Gate("before_write")
 
 	if packageInfo.Cpp != nil && !packageInfo.Cpp.Disabled {
+		verifhook.Emit("Generate", "target", "cpp")
 		err = cpp.Generate(env, *packageInfo.Cpp)
 		if err != nil {
 			return packageInfo, warnings, err
@@ -205,6 +213,7 @@ func generateImpl(configArgs map[string]string) (*packaging.PackageInfo, []strin
 	}
 
 	if packageInfo.Python != nil && !packageInfo.Python.Disabled {
+		verifhook.Emit("Generate", "target", "python")
 		err = python.Generate(env, *packageInfo.Python)
 		if err != nil {
 			return packageInfo, warnings, err
@@ -212,6 +221,7 @@ func generateImpl(configArgs map[string]string) (*packaging.PackageInfo, []strin
 	}
 
 	if packageInfo.Json != nil && !packageInfo.Json.Disabled {
+		verifhook.Emit("Generate", "target", "json")
 		err = outputJson(env, packageInfo.Json)
 		if err != nil {
 			return packageInfo, warnings, err
@@ -219,12 +229,14 @@ func generateImpl(configArgs map[string]string) (*packaging.PackageInfo, []strin
 	}
 
 	if packageInfo.Matlab != nil && !packageInfo.Matlab.Disabled {
+		verifhook.Emit("Generate", "target", "matlab")
 		err = matlab.Generate(env, *packageInfo.Matlab)
 		if err != nil {
 			return packageInfo, warnings, err
 		}
 	}
 
+	verifhook.Emit("GenEnd")
 	return packageInfo, warnings, err
 }
 
